@@ -7,8 +7,20 @@ ASSUMPTIONS = []
 
 def queries(tier):
     qs = []
-    for k in ([1, 2, 3] if tier == 'quick' else [1, 2, 3, 4]):
-        for w in range(1 << k):
-            qs.append(dict(name='set_hist_k%d_w%d' % (k, w), unit='lru', harness='h_set.c', defs={'K': k, 'WHICH': w}, unwind=10, timeout=1500, mem_gb=10,
-                       object_bits=12, desc='LRUSet history', bounds='k=%d' % k))
+    for cls in ('set', 'map'):
+        for k in ([1, 2, 3] if tier == 'quick' else [1, 2, 3, 4]):
+            for w in range(1 << k):
+                qs.append(dict(name='%s_hist_k%d_w%d' % (cls, k, w), unit='lru', harness='h_%s.c' % cls, defs={'K': k, 'WHICH': w}, unwind=6, timeout=1500, mem_gb=10,
+                           object_bits=12, desc='history', bounds='k=%d' % k))
+        for m0 in range(4):
+            for m1 in range(4):
+                qs.append(dict(name='%s_step_m%d_m%d' % (cls, m0, m1), unit='lru', harness='h_%s_step.c' % cls, defs={'M0': m0, 'M1': m1}, unwind=16, timeout=1500, mem_gb=10,
+                           object_bits=12, desc='step', bounds='m0=%d m1=%d' % (m0, m1)))
+    for cls in ('set', 'map'):
+        for k, w in ((2, 1), (3, 2)):
+            qs.append(dict(name='%s_leak_hist_k%d_w%d' % (cls, k, w), unit='lru', harness='h_%s.c' % cls, defs={'K': k, 'WHICH': w, 'NODRAIN': 1, 'NOTHROW': 1}, unwind=6, timeout=1500, mem_gb=10,
+                       object_bits=12, flags=['--memory-leak-check'], desc='history, destroyed populated, leak check', bounds='k=%d' % k))
+        for m0, m1 in ((2, 1), (3, 3)):
+            qs.append(dict(name='%s_leak_step_m%d_m%d' % (cls, m0, m1), unit='lru', harness='h_%s_step.c' % cls, defs={'M0': m0, 'M1': m1, 'NOTHROW': 1}, unwind=16, timeout=1500, mem_gb=10,
+                       object_bits=12, flags=['--memory-leak-check'], desc='step, destroyed populated, leak check', bounds='m0=%d m1=%d' % (m0, m1)))
     return qs
